@@ -270,6 +270,22 @@ func buildVariants(c ReprCase, known map[string]bool) ([]variant, bool) {
 	// compiled without force, as a first compilation
 	s, _ = base()
 	vs = append(vs, variant{name: "go-noforce", spec: s, err: s.Compile(context.Background(), ints, false)})
+	// Go structures assembled in stages: compiled when one node is still
+	// missing, then completed and compiled again without force ("build
+	// what has not been built yet")
+	// (inline patterns only: once a specification has been compiled its
+	// patterns are parsed and its pattern syntax says so - repair ae8d9c9 -
+	// so JSON-text patterns cannot be added to it afterwards)
+	if names := c.Spec.NodeNames(); len(names) >= 2 && c.Unknown.Kind != "syntax" && c.Unknown.Kind != "malformedPattern" {
+		s, _ = base()
+		late := names[len(names)/2]
+		held := s.Nodes[late]
+		delete(s.Nodes, late)
+		if first := s.Compile(context.Background(), ints, false); first == nil {
+			s.Nodes[late] = held
+			vs = append(vs, variant{name: "go-staged", spec: s, err: s.Compile(context.Background(), ints, false)})
+		}
+	}
 	// documents written with the documented key names (not derived
 	// from the structs' tags); flow-style YAML is JSON text
 	if c.Unknown.Kind == "" {
